@@ -133,7 +133,7 @@ func verifCanary(label string, cond bool) {}
 //@ pred tbpOK(r *ua.TranslateBrowsePathsToNodeIDsResponse) := r != nil &&
 //@      (forall i int :: { at(r.Results, i) } off(r.Results) <= i && i < off(r.Results) + len(r.Results) ==> bprOK(at(r.Results, i)))
 
-//@ pred respOK(v ua.Response) := v != nil &&
+//@ pred respOK(v ua.Response) := v == nil || (true &&
 //@      (typeis(v, *ua.ReadResponse) ==> readOK(dyn(v, *ua.ReadResponse))) &&
 //@      (typeis(v, *ua.BrowseResponse) ==> browseOK(dyn(v, *ua.BrowseResponse))) &&
 //@      (typeis(v, *ua.BrowseNextResponse) ==> browseNextOK(dyn(v, *ua.BrowseNextResponse))) &&
@@ -145,7 +145,7 @@ func verifCanary(label string, cond bool) {}
 //@      (typeis(v, *ua.ModifyMonitoredItemsResponse) ==> mmirOK(dyn(v, *ua.ModifyMonitoredItemsResponse))) &&
 //@      (typeis(v, *ua.SetMonitoringModeResponse) ==> dyn(v, *ua.SetMonitoringModeResponse) != nil) &&
 //@      (typeis(v, *ua.SetTriggeringResponse) ==> dyn(v, *ua.SetTriggeringResponse) != nil) &&
-//@      (typeis(v, *ua.PublishResponse) ==> pubOK(dyn(v, *ua.PublishResponse)))
+//@      (typeis(v, *ua.PublishResponse) ==> pubOK(dyn(v, *ua.PublishResponse))))
 
 // safeAssign(t, &p) is `p = t` if the dynamic type of t is the type of p, and an error otherwise
 // (reflection; assumed). T is the type of p at the call site.
@@ -188,7 +188,7 @@ func verifCanary(label string, cond bool) {}
 //@   assumed
 //@   params c ctx req h
 //@   assigns allbut Node Subscription monitoredItem ua.MonitoredItemCreateRequest ua.MonitoredItemCreateResult ua.MonitoredItemModifyRequest ua.MonitoredItemModifyResult ua.ReadResponse ua.DataValue ua.Variant ua.BrowseResponse ua.BrowseNextResponse ua.BrowseResult ua.ReferenceDescription ua.ExpandedNodeID ua.TranslateBrowsePathsToNodeIDsResponse ua.BrowsePathResult ua.BrowsePathTarget []*ua.DataValue []*ua.BrowseResult []*ua.ReferenceDescription []*ua.BrowsePathResult []*ua.BrowsePathTarget []*ua.MonitoredItemModifyRequest []*ua.MonitoredItemCreateRequest map[uint32]*monitoredItem ua.ModifyMonitoredItemsRequest.ItemsToModify ua.ModifyMonitoredItemsRequest.TimestampsToReturn
-//@   calls h nonnil
+//@   calls h
 //@   callarg h 0 respOK(cbarg)
 //@   ensures h != nil && err == nil ==> ran_h && res_h == nil
 
@@ -274,14 +274,14 @@ func verifCanary(label string, cond bool) {}
 //@   props C21
 //@   assumed
 //@   assigns allbut Subscription monitoredItem ua.MonitoredItemCreateRequest ua.MonitoredItemCreateResult ua.MonitoredItemModifyRequest
-//@   calls h nonnil
+//@   calls h
 //@   callarg h 0 respOK(cbarg)
 //@   ensures h != nil && err == nil ==> ran_h && res_h == nil
 //@ func (*Client).sendWithTimeout
 //@   props C21
 //@   assumed
 //@   assigns allbut Subscription monitoredItem Client.pendingAcks Client.subs []*ua.SubscriptionAcknowledgement map[uint32]*Subscription
-//@   calls h nonnil
+//@   calls h
 //@   callarg h 0 respOK(cbarg)
 //@   ensures h != nil && err == nil ==> ran_h && res_h == nil
 
@@ -504,6 +504,7 @@ func verifCanary(label string, cond bool) {}
 //@ func (*Client).sendWithTimeout@handoff
 //@   props C18
 //@   frame_only
+//@   use (*github.com/gopcua/opcua/uasc.SecureChannel).SendRequestWithTimeout@handoff
 //@   requires c != nil
 //@   assigns *
 //@   calls h
